@@ -240,6 +240,20 @@ def sharing_scenarios(_=None):
   t = (1, [2])
   inner = fdl.Config(pool.fb, x=t)
   run('tuple-with-list', fdl.Config(pool.fc, t, q=inner), fdl.Config(pool.fc, (1, [3]), q=inner))
+  # one root is reachable from the other structure: wrapping an existing configuration, unwrapping
+  # it, and a configuration compared with itself
+  def inner_cfg():
+    return fdl.Config(pool.fb, 1, y=[2, {'k': 3}])
+  old = inner_cfg()
+  run('new-wraps-old-root', old, fdl.Config(pool.fc, old, q=5))
+  old = inner_cfg()
+  run('new-wraps-old-root-in-containers', old, fdl.Config(pool.fc, [1, {'o': old}], q=(old,)))
+  new = inner_cfg()
+  run('old-wraps-new-root', fdl.Config(pool.fc, new, q=5), new)
+  new = inner_cfg()
+  run('old-wraps-new-root-twice', fdl.Config(pool.fc, new, q=fdl.Config(pool.fb, new)), new)
+  same = fdl.Config(pool.fc, inner_cfg(), q=[inner_cfg()])
+  run('old-is-new', same, same)
   # an alias created under a brand-new dict key / new list element
   old = fdl.Config(pool.fc, {'p': 1}, q=[1, 2])
   new = copy.deepcopy(old)
